@@ -128,6 +128,11 @@ def lattice(thorough):
                 # outer splitting: perturbative in eps; inner splitting (drift vs. star-planet kicks): not perturbative, step dt/n
                 terms = [(i + 1, p) for i, p in enumerate(o0)] + [(0, min(o1), n)]
                 L.append(dict(name="eos/%s/%s/n%d" % (EOS_NAMES[p0], EOS_NAMES[p1], n), fam="eos", terms=terms, set=st))
+                if n == 1 and (thorough or p1 == 0 or p0 == p1):
+                    def st0(sim, st=st):
+                        st(sim)
+                        sim.ri_eos.safe_mode = 0
+                    L.append(dict(name="eos/%s/%s/n%d/safe0" % (EOS_NAMES[p0], EOS_NAMES[p1], n), fam="eos", terms=terms, set=st0, safe=0))
     for o in (2, 4, 6, 8, 10):
         def st(sim, o=o):
             sim.integrator = "janus"
@@ -135,10 +140,15 @@ def lattice(thorough):
             sim.ri_janus.scale_pos = 1e-16
             sim.ri_janus.scale_vel = 1e-16
         L.append(dict(name="janus/%d" % o, fam="janus", terms=[(0, o)], set=st))
-    for nm in ("mercurius", "trace"):
-        def st(sim, nm=nm):
-            sim.integrator = nm
-        L.append(dict(name=nm, fam=nm, terms=[(1, 2)], set=st))
+    for safe in (1, 0):
+        def st(sim, safe=safe):
+            sim.integrator = "mercurius"
+            sim.ri_mercurius.safe_mode = safe
+        L.append(dict(name="mercurius/safe%d" % safe, fam="mercurius", terms=[(1, 2)], set=st, safe=safe))
+
+    def stt(sim):
+        sim.integrator = "trace"
+    L.append(dict(name="trace", fam="trace", terms=[(1, 2)], set=stt))
     return L
 
 
@@ -162,8 +172,19 @@ def run_case(rebound, sysd, cfg, dt, T):
     cfg["set"](sim)
     n = max(1, int(round(abs(T) / abs(dt))))
     sim.dt = T / n
-    sim.steps(n)
-    sim.synchronize()
+    if cfg.get("safe") == 0 and n >= 3:
+        # manual-synchronisation mode: three reb_simulation_integrate calls, each returning in a synchronised state after a whole
+        # number of steps (target half a step before the last one; exact_finish_time = 0), so that the first step after every
+        # synchronisation is exercised
+        done = 0
+        for nk in (n // 3, n // 3, n - 2 * (n // 3)):
+            done += nk
+            sim.integrate((done - 0.5) * sim.dt, exact_finish_time=0)
+        if abs(sim.t - T) > 1e-9 * abs(T):
+            raise RuntimeError("split integrate ended at t=%r instead of %r" % (sim.t, T))
+    else:
+        sim.steps(n)
+        sim.synchronize()
     return sim.t, state_of(sim)
 
 
@@ -543,12 +564,13 @@ def run(c):
         focus = set()
         txt = " ".join(c.broken)
         import re as _re
-        fams = {"Saba": "saba", "Whfast": "whfast", "Eos": "eos", "Janus": "janus", "Leapfrog": "leapfrog", "Ias15": "ias15"}
+        fams = {"Saba": "saba", "Whfast": "whfast", "Eos": "eos", "Janus": "janus", "Leapfrog": "leapfrog", "Ias15": "ias15",
+                "Mercurius": "mercurius"}
         for line in txt.splitlines():
             if "error" in line.lower() or "✖" in line:
-                for m in _re.finditer(r"Proofs[/.]C01(Saba|Whfast|Eos|Janus|Leapfrog|Ias15)", line):
+                for m in _re.finditer(r"Proofs[/.]C01(Saba|Whfast|Eos|Janus|Leapfrog|Ias15|Mercurius)", line):
                     focus.add(fams[m.group(1)])
-            m = _re.search(r"translator: .*?\[(saba|whfast|eos|janus|leapfrog|ias15)\]", line)
+            m = _re.search(r"translator: .*?\[(saba|whfast|eos|janus|leapfrog|ias15|mercurius)\]", line)
             if m:
                 focus.add(m.group(1))
         if not focus:
